@@ -178,7 +178,7 @@ def local_defs_with_unpack(stmts, exclude=()):
     return defs
 
 
-def inline_helpers(repo, module, expr, depth=0, skip=()):
+def inline_helpers(repo, module, expr, depth=0, skip=(), local_funcs=None):
     """replace calls of small repository helpers (body = simple assignments + one return) by their returned expression with the
     parameters substituted by the arguments and local names expanded — so that a rule sees through `extract function` refactorings"""
     if depth > 3:
@@ -189,12 +189,20 @@ def inline_helpers(repo, module, expr, depth=0, skip=()):
             self.generic_visit(node)
             if not isinstance(node.func, ast.Name) or node.func.id in skip:
                 return node
-            try:
-                r = repo.resolve_name(module, node.func.id)
-            except Exception:
-                r = None
-            if not (r and r[0] == "func" and r[1].cls is None):
-                return node
+            if local_funcs and node.func.id in local_funcs:
+                # a function defined inside the analysed function (closure over its locals: names are expanded by the caller's Canon)
+                class _R:
+                    pass
+                rr = _R()
+                rr.node, rr.module = local_funcs[node.func.id], module
+                r = ("func", rr)
+            else:
+                try:
+                    r = repo.resolve_name(module, node.func.id)
+                except Exception:
+                    r = None
+                if not (r and r[0] == "func" and r[1].cls is None):
+                    return node
             fn = r[1].node
             body = [s_ for s_ in fn.body if not (isinstance(s_, ast.Expr) and isinstance(s_.value, ast.Constant))]
             body = [s_ for s_ in body if not isinstance(s_, (ast.Assert, ast.Pass))]
@@ -220,7 +228,7 @@ def inline_helpers(repo, module, expr, depth=0, skip=()):
             defs = local_defs_with_unpack(body[:-1])
             defs.update(binding)
             out = Canon(defs).expand(body[-1].value)
-            return inline_helpers(repo, r[1].module, out, depth + 1, skip)
+            return inline_helpers(repo, r[1].module, out, depth + 1, skip, local_funcs)
     import copy as _copy
     return Tr().visit(_copy.deepcopy(expr))
 
